@@ -363,7 +363,7 @@ def shared_child_spec():
 def double_link_specs():
     """the same predecessor linked twice with different kinds (the classic SS+FF pair), both orders of declaration"""
     out = []
-    for kinds in (("SS", "FF"), ("FF", "SS"), ("FS", "FF"), ("SS", "SF"), ("SF", "SS")):
+    for kinds in (("SS", "FF"), ("FF", "SS"), ("FS", "FF"), ("SS", "SF"), ("SF", "SS"), ("SS", "FS"), ("FF", "FS"), ("SF", "FS")):
         for wv in ((3.0, 1.0), (1.0, 3.0), (2.0, 2.0)):
             tasks = [{"name": "T0", "work": 1.0}, {"name": "T1", "work": wv[0]}, {"name": "T2", "work": wv[1]}]
             links = [[0, 1, "FS"], [1, 2, kinds[0]], [1, 2, kinds[1]]]
@@ -810,4 +810,54 @@ def auto_cure_specs():
         for wpr in ("FSS", "SSP"):
             sp = {"tasks": [dict(t, wprule=wpr) for t in tasks], "links": links, "components": comps, "workplaces": wps, "teams": teams, "label": "auto-cure:%d:%s" % (n, wpr)}
             out.append(sp)
+    return out
+
+
+def nested_order_specs():
+    """nested products in which part and assembly are apart for a while, with the part listed before or after its assembly in the product:
+    (travelling) p1@wp1 -> c1@wp2 -> c2@wp1 -> p2@wp1, the part leaves its still placed assembly and comes back;
+    (part-first) cut@shop on the part, then weld -> paint @hall on the assembly (the assembly is not placed while the part is cut)"""
+    out = []
+    for child_first in (False, True):
+        tasks = [{"name": "p1", "work": 2.0, "nf": True}, {"name": "c1", "work": 4.0, "nf": True}, {"name": "c2", "work": 2.0, "nf": True}, {"name": "p2", "work": 2.0, "nf": True}]
+        comps = [{"name": "cP", "tasks": [0, 3], "children": [1], "space": 1.0}, {"name": "cC", "tasks": [1, 2], "space": 1.0}]
+        if child_first:
+            comps = [comps[1], dict(comps[0], children=[0])]
+        wps = [{"name": "wp1", "cap": 3.0, "targets": [0, 2, 3], "facilities": [{"name": "f1", "skills": {"p1": 1.0, "c2": 1.0, "p2": 1.0}, "cost": 1.0}]},
+               {"name": "wp2", "cap": 3.0, "targets": [1], "facilities": [{"name": "f2", "skills": {"c1": 1.0}, "cost": 2.0}]}]
+        teams = [{"name": "TM0", "targets": [0, 1, 2, 3], "workers": [{"name": "W0", "skills": {"p1": 1.0, "c1": 1.0, "c2": 1.0, "p2": 1.0}, "fskills": {"f1": 1.0, "f2": 1.0}, "cost": 1.0}]}]
+        out.append({"tasks": tasks, "links": [[0, 1, "FS"], [1, 2, "FS"], [2, 3, "FS"]], "components": comps, "workplaces": wps, "teams": teams,
+                    "label": "nested-order:travelling:%s" % ("part-listed-first" if child_first else "assembly-listed-first")})
+        tasks = [{"name": "cut", "work": 3.0, "nf": True}, {"name": "weld", "work": 2.0, "nf": True}, {"name": "paint", "work": 2.0, "nf": True}]
+        comps = [{"name": "block", "tasks": [1, 2], "children": [1], "space": 1.0}, {"name": "panel", "tasks": [0], "space": 1.0}]
+        if child_first:
+            comps = [comps[1], dict(comps[0], children=[0])]
+        wps = [{"name": "shop", "cap": 2.0, "targets": [0], "facilities": [{"name": "saw", "skills": {"cut": 1.0}, "cost": 1.0}]},
+               {"name": "hall", "cap": 2.0, "targets": [1, 2], "facilities": [{"name": "torch", "skills": {"weld": 1.0, "paint": 1.0}, "cost": 2.0}]}]
+        teams = [{"name": "TM0", "targets": [0, 1, 2], "workers": [{"name": "W0", "skills": {"cut": 1.0, "weld": 1.0, "paint": 1.0}, "fskills": {"saw": 1.0, "torch": 1.0}, "cost": 5.0}]}]
+        out.append({"tasks": tasks, "links": [[0, 1, "FS"], [1, 2, "FS"]], "components": comps, "workplaces": wps, "teams": teams,
+                    "label": "nested-order:part-first:%s" % ("part-listed-first" if child_first else "assembly-listed-first")})
+    return out
+
+
+def loaned_worker_spec():
+    """a worker appended to team A's roster afterwards whose team_id names team B; A and B are assigned to different tasks"""
+    full = {"T0": 1.0, "T1": 1.0, "T2": 1.0}
+    return {"tasks": [{"name": "T0", "work": 3.0}, {"name": "T1", "work": 4.0}, {"name": "T2", "work": 3.0}], "links": [[0, 2, "FS"]],
+            "teams": [{"name": "TMA", "targets": [0, 2], "workers": [{"name": "W0", "skills": dict(full), "cost": 1.0}, {"name": "WL", "skills": dict(full), "cost": 2.0, "team_id": "TMB"}]},
+                      {"name": "TMB", "targets": [1], "workers": [{"name": "W1", "skills": dict(full), "cost": 3.0}]}], "label": "loaned-worker"}
+
+
+def two_pair_specs():
+    """one facility task holding two worker/facility pairs with unequal skills; the machine preferred by the task's rule is listed second in its workplace"""
+    out = []
+    for frule in ("SSP", "HSV"):
+        for order in ((0, 1), (1, 0)):
+            facs = [{"name": "robot", "skills": {"weld": 1.0}, "cost": 1.0}, {"name": "crane", "skills": {"weld": 2.0}, "cost": 2.0}]
+            facs = [facs[i] for i in order]
+            out.append({"tasks": [{"name": "weld", "work": 14.0, "nf": True, "frule": frule}], "links": [], "components": [{"name": "C0", "tasks": [0]}],
+                        "workplaces": [{"name": "dock", "cap": 1.0, "targets": [0], "facilities": facs}],
+                        "teams": [{"name": "TM0", "targets": [0], "workers": [{"name": "ann", "skills": {"weld": 1.0}, "fskills": {"robot": 1.0, "crane": 1.0}, "cost": 1.0},
+                                                                             {"name": "bob", "skills": {"weld": 3.0}, "fskills": {"robot": 1.0, "crane": 1.0}, "cost": 2.0}]}],
+                        "label": "two-pairs:%s:%s" % (frule, order)})
     return out
